@@ -57,3 +57,10 @@ open Ekit.RB
 #print axioms Ekit.MiniGo.RBHeap.fixSpec_holds
 #print axioms Ekit.MiniGo.RBHeap.c02_ptr_step_ordered
 #print axioms Ekit.MiniGo.RBHeap.c02_ptr_history_ordered
+#print axioms Ekit.MiniGo.RBHeap.Fix.fixAfterDelete_keeps_leaf
+#print axioms Ekit.MiniGo.RBHeap.call_nosize
+#print axioms Ekit.MiniGo.RBHeap.AddN.addNode_size
+#print axioms Ekit.MiniGo.RBHeap.Del.deleteNode_size
+#print axioms Ekit.MiniGo.RBHeap.c02_ptr_new_size
+#print axioms Ekit.MiniGo.RBHeap.c02_ptr_step_size
+#print axioms Ekit.MiniGo.RBHeap.c02_ptr_history_size
